@@ -1304,7 +1304,15 @@ func (c *seqCase) persist(li int, mode string) {
 		if c.r.Intn(4) == 0 {
 			target = li + c.r.Intn(top-li+1)
 		}
-		qs = append(qs, c.genQuery(target, true))
+		q := c.genQuery(target, true)
+		for _, acts := range q.script {
+			for k := range acts {
+				if acts[k].kind == 1 {
+					acts[k].kind, acts[k].val = 0, nil // the same battery is asked twice: it must not write
+				}
+			}
+		}
+		qs = append(qs, q)
 	}
 	before := make([][][]string, len(qs))
 	beforeCls := make([][]string, len(qs))
